@@ -430,10 +430,18 @@ class World(object):
                     for eid, attrs in src_sim.outputs[other_time].items():
                         for attr, val in attrs.items():
                             entry.setdefault(eid, {}).setdefault(attr, val)
-            else:
+            elif src.is_persistent(src_attr):
                 dest_sim.persistent_inputs.setdefault(
                     dest.eid, {}
                 ).setdefault(dest_attr, {})[src.full_id] = initial_data
+            else:
+                # Non-persistent outputs are delivered exactly once.
+                # (An entry in persistent_inputs would make the input
+                # persistent: the initial data and every later value
+                # would be repeated in each step of dest_sim.)
+                dest_sim.timed_input_buffer.add(
+                    0, src_sim.sid, src.eid, dest.eid, dest_attr, initial_data
+                )
 
         self.entity_graph.add_edge(src.full_id, dest.full_id)
 
